@@ -287,11 +287,51 @@ fn c09(tier: Tier) -> i32 {
         },
         &root,
     );
+    // whole files around plural merging and repeated keys (the default locale's file; the other locale is empty / the same)
+    let files = vmodel::adversarial::whole_files();
+    pool_for(
+        files.len() * 2,
+        |w, i, dir| {
+            let (name, content) = &files[i / 2];
+            let same = i % 2 == 1;
+            let mut p = Project::new(Config::simple("en", &["en", "fr"]));
+            p.set_file(None, "en", vec![("z".to_string(), st("z"))]);
+            p.set_file(None, "fr", vec![]);
+            p.materialise(dir, JSON).unwrap();
+            std::fs::write(dir.join("locales").join("en.json"), content).unwrap();
+            if same {
+                std::fs::write(dir.join("locales").join("fr.json"), content).unwrap();
+            }
+            let v = ask(w, dir);
+            rep.eval(1);
+            let status = v["status"].as_str().unwrap_or("?").to_string();
+            match status.as_str() {
+                "ok" => {
+                    if v["syn_ok"] != true {
+                        rep.violation(format!("C09/L2: generated code is not valid Rust for the file {name}: {}", v["issues"]), json!({"file": content}));
+                    }
+                }
+                "err" => {
+                    if v["msg"].as_str().unwrap_or("").trim().is_empty() {
+                        rep.violation(format!("C09/L2: error with empty message for the file {name}"), json!({}));
+                    }
+                }
+                _ => {
+                    rep.violation(
+                        format!("C09/L2: code generation {} on the file {name} ({}): {} :: {content}", if status == "panic" { "PANICS" } else { "CRASHES" }, if same { "both locales" } else { "default locale only" }, vmodel::report::truncate(&v["msg"].as_str().unwrap_or("").replace('\n', " "), 300)),
+                        json!({"file": content, "answer": v}),
+                    );
+                }
+            }
+            *classes.lock().unwrap().entry(format!("whole-file/{status}")).or_insert(0) += 1;
+        },
+        &root,
+    );
     rep.nontriv(classes.lock().unwrap().len() as u64 * 10);
     rep.sample(json!({"value_of_k": "[\"f32\", [\"x\", \"NaN\"], [\"y\"]]"}));
     rep.sample(json!({"value_of_k": inputs[inputs.len() / 3].1}));
     let mut cov = serde_json::Map::new();
-    cov.insert("rule".into(), json!("every value of the C09 file pipeline (token strings, range specs, JSON number classes, JSON shapes, foreign-key forms) plus non-finite / extreme float bounds and literals, in a two-locale project that also holds values reducing to nothing at every nested position (range branch, plural form, component body), through the real code generator load_locales() (macro crate sources compiled into this binary) in worker processes; oracle: Ok with tokens that parse as a Rust file (syn), or Err with non-empty message; never a panic or a dead process"));
+    cov.insert("rule".into(), json!("every value of the C09 file pipeline (token strings, range specs, JSON number classes, JSON shapes, foreign-key forms) plus non-finite / extreme float bounds and literals, in a two-locale project that also holds values reducing to nothing at every nested position (range branch, plural form, component body), plus 16 whole files around plural merging (empty / non-identifier base keys, null / number / group forms) and repeated keys, through the real code generator load_locales() (macro crate sources compiled into this binary) in worker processes; oracle: Ok with tokens that parse as a Rust file (syn), or Err with non-empty message; never a panic or a dead process"));
     cov.insert("exhaustive".into(), json!(true));
     cov.insert("outcome_classes".into(), json!(*classes.lock().unwrap()));
     let _ = std::fs::remove_dir_all(&root);
